@@ -99,9 +99,15 @@ def replay_own(run, cache, tv):
             if finite(run, f"so3->{rep}/AD/finite/small", [dM, dlog], tv):
                 cmp.vec(f"so3->{rep}/AD/dexp/small", "AD derivative of to_Matrix(exp x) differs from [J_l e_i]x R", dM, want, tv)
                 cmp.vec(f"so3->{rep}/AD/dlogexp/small", "AD derivative of log(exp x) is not I", dlog, np.eye(3), tv)
-    elif op == "dyadic":
-        k = tv["k"]; u = np.array(tv["u"], float)
-        x = np.ldexp(u, -k)
+    elif op in ("dyadic", "switchx"):
+        if op == "dyadic":
+            k = tv["k"]; u = np.array(tv["u"], float)
+            x = np.ldexp(u, -k)
+            thx_ = float(np.ldexp(1.0, -k))
+        else:                       # exactly on a Taylor / closed-form switch
+            x = np.array(tv["xn"], float) / tv["xd"]
+            thx_ = tv["tn"] / tv["td"]
+            k = "sw" + ("+" if tv["tn"] > 0 else "-") + "".join(str(abs(c)) for c in tv["xn"])
         X = hat(x); X2 = X @ X
         nx = float(np.linalg.norm(x)); bound = nx ** 3 + EPS
         L = E.groups()
@@ -155,12 +161,12 @@ def replay_own(run, cache, tv):
             enclj(f"{kind}/left_jacobian_inv/enclosure/k{k}", Jli, I_ - ad / 2 + a2 / 12, "J_l^-1 outside its second-order enclosure")
             enclj(f"{kind}/right_jacobian_inv/enclosure/k{k}", Jri, I_ + ad / 2 + a2 / 12, "J_r^-1 outside its second-order enclosure")
         # SE(2): theta = 2^-k
-        thx = float(np.ldexp(1.0, -k))
+        thx = thx_
         Xg = L.se2.elem(ca.DM([1.0, -0.5, thx])).exp(L.SE2)
         J2 = np.array([[0, -1], [1, 0]], float)
         M2 = np.eye(3); M2[:2, :2] = np.eye(2) + thx * J2 + thx * thx * (J2 @ J2) / 2
         M2[:2, 2] = (np.eye(2) + thx * J2 / 2 + thx * thx * (J2 @ J2) / 6) @ np.array([1.0, -0.5])
-        b = thx ** 3 + EPS
+        b = abs(thx) ** 3 + EPS
         d = float(np.max(np.abs(np.array(ca.DM(Xg.to_Matrix())) - M2)))
         if not d <= b:
             run.violation(f"se2/exp/enclosure/k{k}", "SE(2) exp outside its enclosure", {"tv": tv})
@@ -266,7 +272,7 @@ def main():
         if tv["op"].startswith("exp_"):          # log(exp x) = x on the same points
             c03.replay(run, cache, tv)
     series_drift(run)
-    need = set(handlers) | {"ad_so3", "dyadic", "zero", "lin0"}
+    need = set(handlers) | {"ad_so3", "dyadic", "switchx", "zero", "lin0"}
     switch_pairs = [(63, 64), (31, 32), (1999, 2000), (999, 1000), (15, 16)]
     for a, b in switch_pairs:
         if (a, (1, 0, 0)) not in ms or (b, (1, 0, 0)) not in ms:
